@@ -58,7 +58,7 @@ def _get_handler_shape(fn, helpers):
     """(memo, exact_first) for get_handler; `helpers`: name -> FunctionDef of the other methods of
     TargetRegistry (the uncached lookup may live in a private helper method).
 
-    memo: the key is (type(obj), op); the memo is tested with `key not in self._type_cache`; the
+    memo (two accepted endings, see ret_ok): the key is (type(obj), op); the memo is tested with `key not in self._type_cache`; the
     only store is the last statement of the miss branch; a `False` handler raises (when raise_exc)
     before that store — either in an earlier statement of the miss branch, or inside the helper
     whose result is stored; the function returns `self._type_cache[key]`.
@@ -75,8 +75,15 @@ def _get_handler_shape(fn, helpers):
               and any(_touches_cache(t) for t in (n.targets if not isinstance(n, ast.AugAssign) else [n.target]))]
     calls = [n for n in ast.walk(wf) if isinstance(n, ast.Call) and isinstance(n.func, ast.Attribute)
              and _touches_cache(n.func.value)]
-    memo = (key_ok and len(miss) == 1 and len(stores) == 1 and not calls and bool(body)
-            and ast.unparse(body[-1]) == 'return self._type_cache[_]')
+    # the result is read back from the memo: `return self._type_cache[key]`, or read into a local,
+    # re-checked (`if ret is False and raise_exc: raise …`: a False remembered from a
+    # raise_exc=False lookup raises all the same) and returned
+    tail = [ast.unparse(st) if not isinstance(st, ast.If) else
+            ('if %s: raise' % ast.unparse(st.test) if len(st.body) == 1 and isinstance(st.body[0], ast.Raise)
+             and not st.orelse else '?') for st in body[-3:]]
+    ret_ok = bool(body) and (tail[-1] == 'return self._type_cache[_]' or
+                             tail == ['_ = self._type_cache[_]', 'if _ is False and p3: raise', 'return _'])
+    memo = key_ok and len(miss) == 1 and len(stores) == 1 and not calls and ret_ok
     lookup = wf          # where the uncached lookup is written
     if memo:
         last = miss[0].body[-1]
